@@ -1068,6 +1068,23 @@ class eigenbasis_of(basis_context_manager):
         
         #SS = self.op.diagonalize()
         SS = self.op.get_diagonalization_matrix()
+        
+        if (cb != ob) and self.op.is_basis_protected:
+            # A protected operator was not transformed above: it keeps
+            # the representation of the basis `ob`, and so do its
+            # eigenvectors. Everything else lives in the current basis `cb`,
+            # so the eigenvectors have to be expressed in it.
+            stack = self.manager.basis_stack
+            if ob in stack:
+                TT = numpy.diag(numpy.ones(SS.shape[0]))
+                sl = len(stack)
+                for k in range(1,sl):
+                    TT = numpy.dot(self.manager.basis_transformations[sl-k],
+                                   TT)
+                    if stack[sl-k-1] == ob:
+                        break
+                SS = numpy.dot(numpy.linalg.inv(TT),SS)
+        
         self.manager.set_new_basis(SS)
 
         #self.manager.register_with_basis(nb,self.op)
